@@ -28,8 +28,13 @@ static std::set<std::string> g_outcomes_seen;
 static ino_t g_ino = 0;
 static off_t g_split = 0;
 static uint64_t* g_short_reads = nullptr;     // in shared memory: how often a read was actually shortened
+static size_t g_maxread = 0;                  // part "slowfd": every read(2) on that file returns at most this many bytes (a slow pipe / socket)
 
 extern "C" ssize_t read(int fd, void* buf, size_t count) {
+    if (g_maxread > 0 && fd > 2) {
+        struct stat st;
+        if (fstat(fd, &st) == 0 && st.st_ino == g_ino && count > g_maxread) { count = g_maxread; if (g_short_reads) ++*g_short_reads; }
+    }
     if (g_split > 0 && fd > 2) {
         struct stat st;
         if (fstat(fd, &st) == 0 && st.st_ino == g_ino) {
@@ -134,6 +139,19 @@ static void case_shortread(const FileRef& f, uint32_t p, const std::string& byte
             "shortread;" + s.name + ";" + std::to_string(f.len) + ";" + std::to_string(p));
 }
 
+// one input as a plain file, EVERY read(2) returning at most k bytes (consecutive short reads, as a slow producer delivers them)
+static const uint32_t SLOW_K[] = {1, 2, 3, 5, 7, 64, 700, 1500, 2048, 4095};
+static void case_slowfd(const FileRef& f, uint32_t k, const std::string& bytes, const Result& base, const std::string& path) {
+    const Seed& s = g_seeds[f.seed];
+    g_maxread = k;
+    uint64_t before = *g_short_reads;
+    Result r = read_all(osmium::io::File{path}, pool());
+    g_maxread = 0;
+    if (*g_short_reads - before >= 2) ++C["distinct_nontrivial"];
+    compare(f, base, r, "read from a plain file whose read() returns at most " + std::to_string(k) + " bytes per call", "file:plain,every-read-short",
+            "slowfd;" + s.name + ";" + std::to_string(f.len) + ";" + std::to_string(k));
+}
+
 int main(int argc, char** argv) {
     Args a = benum::parse_args(argc, argv);
     std::string datadir = C06_DATA_DIR, part, scope;     // scope (shortread): "subset" = the quick tier's cases, "rest" = all others
@@ -170,6 +188,7 @@ int main(int argc, char** argv) {
                 FileRef f{static_cast<int>(i), l};
                 const bool whole = l == s.data.size();
                 if (part == "pieces") { if (T || whole || l % 8 == 3) cases.push_back(Case{f, 0}); continue; }
+                if (part == "slowfd") { if (T || whole || l % 8 == 3) for (uint32_t k : SLOW_K) cases.push_back(Case{f, k}); continue; }
                 for (uint32_t p = 1; p < l; ++p) {
                     const bool in_subset = whole || (l % 8 == 3 && p % 8 == 5);
                     // "rest" (thorough): PBF - the parser's own read_exactly() - every prefix x every p; the other formats see a
@@ -179,7 +198,7 @@ int main(int argc, char** argv) {
                 }
             }
         }
-        bound_name = part == "pieces"
+        bound_name = part == "slowfd" ? std::string("plain files with EVERY read() returning at most k bytes, k in {1,2,3,5,7,64,700,1500,2048,4095} x all seeds + ") + (T ? "every prefix" : "every 8th prefix") + " of the 't' seeds" : part == "pieces"
             ? std::string("real files (plain, gz, bz2; PBF: the parser's fd path) in pieces of ") + K + " bytes x all seeds + " + (T ? "every prefix" : "every 8th prefix") + " of the 't' seeds"
             : std::string("plain files with read() returning short at offset p: ") + (scope == "subset" ? "all seeds x every p; every 8th prefix of the 't' seeds x every 8th p" : scope == "rest" ? "every prefix of the PBF 't' seeds x every p, every 8th prefix of the other 't' seeds x every p (minus the subset)" : "all seeds and every prefix of the 't' seeds x every p");
     }
@@ -197,7 +216,8 @@ int main(int argc, char** argv) {
             write_file(cur_path, cur_bytes);
             struct stat st; stat(cur_path.c_str(), &st); g_ino = st.st_ino;
         }
-        case_shortread(c.f, c.p, cur_bytes, cur_base, cur_path);
+        if (part == "slowfd") case_slowfd(c.f, c.p, cur_bytes, cur_base, cur_path);
+        else case_shortread(c.f, c.p, cur_bytes, cur_base, cur_path);
     };
     auto on_death = [&](uint64_t rank, const std::string& what, const std::string& err) {
         const Case& c = cases[rank];
